@@ -635,6 +635,9 @@ def numeric_run_factory(backend):
             ("rel: (x / 100000) * (x / 100000)", lambda: (t.x / 100000) * (t.x / 100000), [N(lambda a: (a / 100000) * (a / 100000))(a) for a in xs]),
             ("rel: (x / 100000) / (y * 1000)", lambda: (t.x / 100000) / (t.y * 1000), [N(lambda a, b: (a / 100000) / (b * 1000))(a, b) for a, b in zip(xs, ys)]),
             ("rel: n ** y", lambda: t.n.abs() ** t.y, [N(lambda a, b: float(abs(a)) ** b)(a, b) for a, b in zip(ns, ys)]),
+            ("x.fill_null(lit(None, Float64))  [typed null literal]", lambda: t.x.fill_null(pdt.lit(None, pdt.Float64())), list(xs)),
+            ("x + lit(None, Float64)", lambda: t.x + pdt.lit(None, pdt.Float64()), [None] * len(xs)),
+            ("coalesce(lit(None, Int64), n)", lambda: pdt.coalesce(pdt.lit(None, pdt.Int64()), t.n), list(ns)),
             ("n.clip(-1.5, 2.5)  [integer column, float bounds]", lambda: t.n.clip(-1.5, 2.5), [N(lambda v: max(-1.5, min(2.5, float(v))))(v) for v in ns]),
             ("n.clip(-2, 2.5)  [integer column, mixed bounds]", lambda: t.n.clip(-2, 2.5), [N(lambda v: max(-2.0, min(2.5, float(v))))(v) for v in ns]),
             ("n.clip(-5, 5)", lambda: t.n.clip(-5, 5), [N(lambda v: max(-5, min(5, v)))(v) for v in ns]), ("x.clip(0, None)", lambda: t.x.clip(0.0, None), [N(lambda v: max(0.0, v))(v) for v in xs]),
@@ -694,7 +697,16 @@ def case_reuse_run(carve):
                 "m1": [30 if v == 3 else v for v in a],
                 "m2": [30 if v == 3 else (50 if v in (5, -7) else -1) for v in a],
             }
+            # a constant condition is a condition like any other (first true branch)
+            want["const_true"] = [1 if (v is not None and v > 2) else 2 for v in a]
+            want["const_false"] = [1 if (v is not None and v > 2) else 3 for v in a]
             exprs = {"full": full, "sign": sign, "pos": pos, "huge": huge, "big": big, "m2": m2, "m1": m1}
+            for cname, cval in (("const_true", True), ("const_false", False)):
+                try:
+                    exprs[cname] = pdt.when(t.a > 2).then(1).when(pdt.lit(cval)).then(2).otherwise(3)
+                except Exception as ex:  # noqa: BLE001
+                    n += 1
+                    bad.append(f"[{be}] when(a > 2).then(1).when(lit({cval})).then(2).otherwise(3) is rejected: {type(ex).__name__}: {str(ex)[:100]}")
             for name, e in exprs.items():
                 n += 1
                 try:
@@ -763,9 +775,9 @@ def obligations(tier):
                               functions=[disp[backend]], bounded="35 temporal expressions (incl. untyped None operands) on 6 rows (leap day, year end, microseconds, negative durations, nulls); native execution", tags=("cross_backend",)))
     for backend in BACKENDS:
         obs.append(Obligation(f"C03/LIB-num/{backend}", "LIB", f"rounding / power / transcendental functions on {backend} against Python's math", numeric_run_factory(backend), functions=[disp[backend]],
-                              bounded="28 numeric expressions on 8 rows (negative values, nulls, no rounding ties); native execution", tags=("cross_backend",)))
+                              bounded="31 numeric expressions on 8 rows (negative values, nulls, no rounding ties); native execution", tags=("cross_backend",)))
     obs.append(Obligation("C03/E3/case_reuse", "E3", "case expressions built from a shared open prefix (native, Python oracle)", case_reuse_run, functions=[H.fn_info(H.col_expr_mod.WhenClause.then), H.fn_info(H.col_expr_mod.CaseExpr.when), H.fn_info(H.col_expr_mod.CaseExpr.otherwise), H.fn_info(H.col_expr_mod.ColExpr.map)],
-                          bounded="7 case / map expressions sharing prefixes x 2 backends on one 6-row column"))
+                          bounded="9 case / map expressions (shared prefixes, constant conditions) x 2 backends on one 6-row column"))
     obs.append(Obligation("C03/B/method_binding", "B", "methods, accessors, reflected operators and free functions are bound to their operators with the arguments in order", binding_run,
                           functions=[H.fn_info(H.col_expr_mod.ColFn.__init__)], bounded="up to 4 column-only and 8 literal-carrying argument shapes per operator (every operator of the registry); the bound method is a straight-line constructor call"))
     from pydiverse.common import Float64, Int64, String
